@@ -396,6 +396,8 @@ class Loop:
                         outs.append(('next', st2))
                     continue
                 if is_for:
+                    if not seqv.extra.get('get'):
+                        raise Unsupported(s, 'loop over a sequence the contract gives no element function for')
                     item = seqv.extra['get'](eng, iz, st2)
                     pre = eng.assign(s.target, item, st2)
                     st2.env[idx_name] = vint(iz + 1)
